@@ -206,7 +206,32 @@ impl LdapConnAsync {
 // both: the connection coming back and the StartTLS response
 #[verifier::external_body]
 pub fn verif_spawn_single_op(conn: LdapConnAsync, tx: Tx) { unimplemented!() }
-pub uninterp spec fn turn_outcome(conn: LdapConnAsync) -> Result<LdapConnAsync>;
+// ---- single_op itself: one turn of the driver in SingleOp mode, its outcome handed back through the one-shot channel
+pub enum LoopMode { SingleOp, Continuous }
+pub uninterp spec fn turn_result(conn: LdapConnAsync, mode: LoopMode) -> Result<LdapConnAsync>;
+// what comes back through the one-shot channel in new_tcp's StartTLS exchange (single_op, below, is what is spawned there)
+pub open spec fn turn_outcome(conn: LdapConnAsync) -> Result<LdapConnAsync> { turn_result(conn, LoopMode::SingleOp) }
+pub struct TurnFut { pub conn: LdapConnAsync, pub mode: LoopMode }
+impl TurnFut { #[verifier::external_body] pub fn verif_await(self) -> (r: Result<LdapConnAsync>) ensures r == turn_result(self.conn, self.mode) { unimplemented!() } }
+impl LdapConnAsync {
+    #[verifier::external_body] pub fn turn(self, mode: LoopMode) -> (f: TurnFut) ensures f.conn == self, f.mode == mode { unimplemented!() }
+}
+// tokio::sync::oneshot::Sender, seen as the cell its value lands in
+pub struct OneshotTx<'a> { pub cell: &'a mut Ghost<Option<Result<LdapConnAsync>>> }
+impl<'a> OneshotTx<'a> {
+    #[verifier::external_body]
+    pub fn send(self, v: Result<LdapConnAsync>) -> (r: core::result::Result<(), Result<LdapConnAsync>>)
+        ensures r is Ok ==> final(self.cell)@ == Some(v), r is Err ==> *final(self.cell) == *old(self.cell)
+    { unimplemented!() }
+}
+//@lift name=LdapConnAsync::single_op file=src/conn.rs impl="impl\s+LdapConnAsync\s*\{" fn=single_op
+//@ sub "fn single_op(self, tx: oneshot::Sender<Result<Self>>)" => "fn single_op<'a>(conn_self: LdapConnAsync, tx: OneshotTx<'a>)"
+//@ sub "self.turn(" => "conn_self.turn("
+//@ spec
+    ensures
+        // whatever arrives through the channel is the outcome of ONE turn in single-operation mode on this very connection
+        final(tx.cell)@ matches Some(v) ==> (v == turn_result(conn_self, LoopMode::SingleOp) || *final(tx.cell) == *old(tx.cell)), //# C17.single_op_hands_back_the_outcome_of_one_single_operation_turn
+//@end
 #[verifier::external_body]
 pub fn verif_try_join(rx: Rx, f: ExtFut, Ghost(conn): Ghost<LdapConnAsync>) -> (r: Result<(Result<LdapConnAsync>, ExopResult)>)
     ensures r matches Ok(p) ==> p.0 == turn_outcome(conn) && starttls_reply(f.conn) == Ok::<ExopResult, LdapError>(p.1),
